@@ -2,6 +2,7 @@ package command
 
 import (
 	"bufio"
+	"bytes"
 	"context"
 	"errors"
 	"io"
@@ -360,9 +361,10 @@ func (o *ipPortScanCmdOpts) newIPPortGenerator() (reqgen scan.RequestGenerator) 
 			return os.Open(o.ipFile)
 		})
 	}
+	stdin := newStdinReplay(os.Stdin)
 	ipgen := scan.NewFileIPGenerator(func() (io.ReadCloser, error) {
 		if o.ipFile == "-" {
-			return io.NopCloser(os.Stdin), nil
+			return stdin.open()
 		}
 		return os.Open(o.ipFile)
 	})
@@ -492,9 +494,10 @@ func (o *genericScanCmdOpts) newIPPortGenerator() (reqgen scan.RequestGenerator)
 			return os.Open(o.ipFile)
 		})
 	}
+	stdin := newStdinReplay(os.Stdin)
 	ipgen := scan.NewFileIPGenerator(func() (io.ReadCloser, error) {
 		if o.ipFile == "-" {
-			return io.NopCloser(os.Stdin), nil
+			return stdin.open()
 		}
 		return os.Open(o.ipFile)
 	})
@@ -589,6 +592,30 @@ func parseIPFlags(inputFlags string) (result uint8, err error) {
 }
 
 type openFileFunc func() (io.ReadCloser, error)
+
+// stdinReplay lets the address list on stdin be read once per port: the first reader
+// streams stdin and records it, every later reader replays the recording.
+type stdinReplay struct {
+	stdin  io.Reader
+	buf    bytes.Buffer
+	opened bool
+}
+
+func newStdinReplay(stdin io.Reader) *stdinReplay {
+	return &stdinReplay{stdin: stdin}
+}
+
+func (s *stdinReplay) open() (io.ReadCloser, error) {
+	if !s.opened {
+		s.opened = true
+		return io.NopCloser(io.TeeReader(s.stdin, &s.buf)), nil
+	}
+	// record what the previous reader left unread
+	if _, err := io.Copy(&s.buf, s.stdin); err != nil {
+		return nil, err
+	}
+	return io.NopCloser(bytes.NewReader(s.buf.Bytes())), nil
+}
 
 func parseExcludeFile(openFile openFileFunc) (excludeIPs scan.IPContainer, err error) {
 	input, err := openFile()
